@@ -381,7 +381,10 @@ def gen_macro(rng, cg, budget, in_math, depth):
         elif q < 0.85:
             a = ('grp', [('T', rng.choice(ACCENT_BASES))])
         else:
-            a = ('grp', [('M', rng.choice(['i', 'j']), '', [])]) if 'i' in tables()['sym'] else ('tok', 'e')
+            # an accent over a symbol macro (dotless i/j, and symbols whose character has a compatibility decomposition:
+            # the accent must not turn \phi into \varphi, \ell into l, ...)
+            syms = [x for x in ['i', 'j', 'phi', 'epsilon', 'ell', 'vartheta', 'alpha', 'aleph'] if x in _names(cg, 'symbol')]
+            a = ('grp', [('M', rng.choice(syms), '', [])]) if syms else ('tok', 'e')
         return ('M', n, '', [a])
     if r < 0.82 and 'frac' in cg['macros']:
         args = []
